@@ -347,7 +347,10 @@ def run_cases(chk, cases, oracles, needs_ok_load=True, nontrivial=None):
     wants, kept = [], []
     seen = set()
     nontriv = 0
+    timeouts = 0
     for c in cases:
+        if timeouts >= 3:
+            break
         k = c.key()
         if k in seen:
             continue
@@ -355,6 +358,8 @@ def run_cases(chk, cases, oracles, needs_ok_load=True, nontrivial=None):
         obs = run_impl(c)
         chk.coverage["evaluations"] += 1
         if obs.crash is not None and not obs.deadlock:
+            if obs.crash.startswith("Timeout"):
+                timeouts += 1
             chk.violation("impl-violation", "implementation raised an internal error on %s: %s" % (c.graph_text(), obs.crash[:200]),
                           {"input": {"case": c.to_json()}, "impl_observation": obs.crash, "oracle_verdict": "internal error"},
                           match_key={"graph": c.graph_text()}, size=len(c.tasks))
